@@ -229,6 +229,24 @@ func genCase(r *sim.Rand) caseT {
 		}
 		c.Eps = append(c.Eps, e)
 	}
+	// one pattern declared twice under two accepted spellings (the tree trims a trailing '/'), with
+	// different methods: both declarations belong to the same endpoint
+	if r.Chance(1, 4) {
+		base := c.Eps[r.Intn(len(c.Eps))]
+		if !strings.HasSuffix(base.URL, "*") {
+			for _, m := range []string{"GET", "POST", "PUT", "DELETE"} {
+				e := ep{Method: m, URL: base.URL + "/"}
+				if m != base.Method && !seen[m+" "+base.URL] && !seen[e.name()] {
+					seen[e.name()] = true
+					if !c.E2E {
+						e.Kind = len(c.Eps)
+					}
+					c.Eps = append(c.Eps, e)
+					break
+				}
+			}
+		}
+	}
 	return c
 }
 
@@ -245,7 +263,7 @@ func probesFor(c caseT) []probe {
 		urls = append(urls, u)
 	}
 	for _, e := range c.Eps {
-		segs := strings.Split(e.URL, "/")
+		segs := strings.Split(strings.Trim(e.URL, "/"), "/")
 		host, path := segs[0], segs[1:]
 		wild := len(path) > 0 && path[len(path)-1] == "*"
 		if wild {
